@@ -279,3 +279,22 @@ Theorem C05_path_any_range : forall W sem, wf W -> sem_nonblank_weak W sem -> st
     = tuple_at (snd (evaluate W sem (fst (run W sem s h)) r2)) i2 j2.
 Proof. exact path_any_range_weak. Qed.
 Print Assumptions C05_path_any_range.
+
+(* a cell reached through the reference node r of an unbounded range (S!B:B,
+   standing for the range node p) and through ANY range node r2 that contains
+   it, one of them asked after any Build/Evaluate history: the same element *)
+Theorem C05_unbounded_any_range : forall W sem, wf W -> sem_nonblank_weak W sem -> stored_ok W sem ->
+  forall s h r p cols1 i1 j1 r2 cols2 i2 j2,
+    Inv W sem s -> Forall (be_op W) h -> alias_node W sem r p -> p < wb_n W ->
+    (forall vals, sem p vals = sem_formula (FRange cols1) vals) ->
+    0 < cols1 -> j1 < cols1 -> i1 * cols1 + j1 < length (wb_deps W p) ->
+    r2 < wb_n W -> wb_input W r2 = false ->
+    (forall vals, sem r2 vals = sem_formula (FRange cols2) vals) ->
+    0 < cols2 -> j2 < cols2 -> i2 * cols2 + j2 < length (wb_deps W r2) ->
+    nth (i1 * cols1 + j1) (wb_deps W p) 0 = nth (i2 * cols2 + j2) (wb_deps W r2) 0 ->
+    tuple_at (snd (evaluate W sem s r)) i1 j1
+    = tuple_at (snd (evaluate W sem (fst (run W sem s h)) r2)) i2 j2
+    /\ tuple_at (snd (evaluate W sem (fst (run W sem s h)) r)) i1 j1
+       = tuple_at (snd (evaluate W sem s r2)) i2 j2.
+Proof. exact unbounded_any_range_weak. Qed.
+Print Assumptions C05_unbounded_any_range.
